@@ -258,6 +258,28 @@ def combin_big(ctx, bins, thorough):
     ctx.parallel(thunks, width=4)
 
 
+def combin_wide(ctx, bins, thorough):
+    """CombinWide.tla: index maps of combinations / permutations (and the mixed radix maps over [n]^k) on ground sets far
+    wider than a machine word, k <= 3 - every count fits TLC's native integers.  R1: closed forms = positions in the
+    explicit enumerations (small n), = CombinBig.tla's digit-sequence forms (n <= 62), theorems of the printed cases;
+    R2: the cases, the documented-panic arguments at these sizes and the generators' tails replayed."""
+    spec, cfg = "combin/CombinWide.tla", "combin/CombinWide_model.cfg"
+    ns = [63, 64, 65, 66, 100, 130, 1000]
+    if thorough:
+        ns += [67, 96, 127, 128, 129, 192, 255, 256, 257, 640, 1290]
+
+    def sub(family, emit, invs):
+        return dict(MAXN=8 if thorough else 7, MAXPN=6, MAXPCOUNT=720, FAMILY=family, EMIT="TRUE" if emit else "FALSE",
+                    INVS=invs, COMBNS=enc_set([34, 50, 62] + ([41, 57, 61] if thorough else [])),
+                    NRANDOM=8 if thorough else 4, SALT=ctx.seed % 60000, WIDENS=enc_set(ns), WIDEKS="{1,2,3}")
+    ctx.tlc(spec, cfg, name="R1 CombinWide: native closed forms = enumeration positions = digit-sequence forms; theorems of the wide cases (n up to %d)" % max(ns),
+            subst=sub("none", False, "WideRankOK WideCasesOK"), workers=1)
+    for fam in ("widecomb", "wideperm", "widecart"):
+        cases = ctx.gen(spec, cfg, name="R2 gen combin " + fam, subst=sub(fam, True, ""))
+        for bn, b in bins.items():
+            ctx.replay(b, "combin-wide", cases, [], name="R2 replay combin %s [%s]" % (fam, bn))
+
+
 def keep_trace(ctx, tr, name):
     keep = os.path.join(HERE, "..", "..", "replays", "C20")
     os.makedirs(keep, exist_ok=True)
@@ -431,7 +453,7 @@ def run(ctx):
         index_trace(ctx, bins, thorough)
         barneshut(ctx, bins, thorough)
     ctx.parallel([lambda: spatial_index(ctx, bins, thorough), enumerations, recorded,
-                  lambda: barneshut_hist(ctx, bins, thorough)], width=4)
+                  lambda: barneshut_hist(ctx, bins, thorough), lambda: combin_wide(ctx, bins, thorough)], width=5)
 
     ctx.assumptions += [
         "TLC/SANY and the CommunityModules Json module are trusted",
@@ -450,7 +472,9 @@ def run(ctx):
              "variant; non-trivial = at least two stored points. R2 combin: one case = one enumeration (one (n,k) / dims "
              "vector / Pascal row) with all its index-map checks; non-trivial = more than one object. R2 combin big families: "
              "one case = one (n,k) / radix vector / table row with all its chosen objects, both index directions; non-trivial = "
-             "a count beyond 2^31. R2 barneshut: one "
+             "a count beyond 2^31. R2 combin wide families: one case = one (n,k) with its chosen objects (both index "
+             "directions), its documented-panic arguments and, for counts <= 20000, the whole generator sequence; "
+             "non-trivial = n > 64. R2 barneshut: one "
              "case = one particle list with the forces on all its particles and 4 probes; non-trivial = >= 2 particles. "
              "R2 barneshut histories: one case = one maximal history of one Plane / Volume object (Reset, Move, SetMass, Append, "
              "Remove) with the answers of all queries after every step, replayed under 3 ways of altering the slice and 2 ways "
